@@ -31,9 +31,12 @@ type c17File struct {
 }
 
 type c17Query struct {
-	Text string       `json:"text"`
-	E    *oracle.Expr `json:"e"`
-	GB   []string     `json:"gb"`
+	// ArgText/Args: the same query with some literals replaced by placeholders and the arguments that restore them
+	ArgText string       `json:"arg_text"`
+	Args    []string     `json:"args"`
+	Text    string       `json:"text"`
+	E       *oracle.Expr `json:"e"`
+	GB      []string     `json:"gb"`
 }
 
 type c17Op struct {
@@ -276,7 +279,18 @@ func workerC17(args []string) int {
 						e := exps[hd.file][(op.Q+g)%len(f.Queries)]
 						var rows *sql.Rows
 						var err error
-						p, msg, _ := vf.Try(func() { rows, err = hd.db.Query(q.Text) })
+						p, msg, _ := vf.Try(func() {
+							if len(q.Args) > 0 && g%2 == 0 {
+								// bound arguments, different for every goroutine of the burst
+								args := make([]any, len(q.Args))
+								for i, a := range q.Args {
+									args[i] = a
+								}
+								rows, err = hd.db.Query(q.ArgText, args...)
+							} else {
+								rows, err = hd.db.Query(q.Text)
+							}
+						})
 						var v string
 						switch {
 						case p:
@@ -596,11 +610,15 @@ func runC17(r *vf.Run) {
 			if qi == 7 {
 				e = oracle.Eq("nosuchcolumn", "1")
 			}
-			f.Queries = append(f.Queries, c17Query{Text: gen.FormatQuery(e, gb), E: e, GB: gb})
+			cq := c17Query{Text: gen.FormatQuery(e, gb), E: e, GB: gb}
+			if tmpl, _, strArgs := withPlaceholders(rng, e); len(strArgs) > 0 {
+				cq.ArgText, cq.Args = gen.FormatQuery(tmpl, gb), strArgs
+			}
+			f.Queries = append(f.Queries, cq)
 		}
 		spec.Files = append(spec.Files, f)
 	}
-	nh := r.Pick(500, 4000)
+	nh := r.Pick(500, 20000)
 	var all []c17History
 	// regression block: the three histories of the repaired defects
 	all = append(all,
